@@ -167,9 +167,12 @@ pub struct PrepDoc<D: Doc> {
 pub enum Need {
     /// only the stream and its schema; no fault-free read is executed at all (C11)
     StreamOnly,
-    /// the stream, plus both fault-free reads as *optional* references (C12, C10 judge each path against its
-    /// own reference, if it has one)
+    /// the stream, plus both fault-free reads as *optional* references (C10 judges each path against its own
+    /// reference, if it has one)
     Stream,
+    /// the stream, plus the fault-free ε-copy read as an optional reference; the full-copy read is not
+    /// executed (C12)
+    StreamEps,
     /// the unfragmented full-copy read (C14)
     Full,
     /// both reads, agreeing
@@ -189,7 +192,7 @@ pub fn prep_doc_need<D: Doc>(seed: u64, tag: &str, vi: u64, tier: Tier, need: Ne
     if b.len() + 8192 > ARENA_CAP {
         return None;
     }
-    let canon_full = if need == Need::StreamOnly {
+    let canon_full = if matches!(need, Need::StreamOnly | Need::StreamEps) {
         None
     } else {
         match catch(|| D::deserialize_full(&mut std::io::Cursor::new(&b[..]))) {
@@ -214,7 +217,7 @@ pub fn prep_doc_need<D: Doc>(seed: u64, tag: &str, vi: u64, tier: Tier, need: Ne
         }
     }) };
     match need {
-        Need::Stream | Need::StreamOnly => {}
+        Need::Stream | Need::StreamOnly | Need::StreamEps => {}
         Need::Full => {
             canon_full.as_ref()?;
         }
